@@ -15,7 +15,7 @@ theorem goodMk_LS (t : IntTy) (v : Nat) (c : Expr) (b : List Stmt)
     (hcb : findWhile Code.fn_ShmReader__snapshot_stmts = some (c, b)) : GoodMk (LS t v) := by
   first
   | (exfalso; simp [rs_eval] at hcb; done)
-  | (intro k g1 cg cache lg pos; simp [LSg, probeEnv, probeSt, loopPrefix, probeInp, relabel, rs_eval, rs_code, rawInp, readerValue, wordsValue, envGet])
+  | (intro k g1 cg cache lg pos; simp [LSg, probeEnv, probeSt, loopPrefix, probeInp, relabel, sfr, rs_eval, rs_code, rawInp, readerValue, wordsValue, envGet])
 
 set_option maxRecDepth 8000 in
 /-- the loop condition `retries > 0` on a positive budget -/
